@@ -32,9 +32,23 @@ let run (toks : string list) : string =
   match toks with
   | "enc" :: shared :: role :: mode :: msgs ->
     let sh = unhex shared in
+    (* mode prefixes: lazy+ (when the results are read makes no difference to a pure function), ctr<N>+ *)
+    let ctr = ref N0 and mode = ref mode in
+    let continue = ref true in
+    while !continue do
+      if String.length !mode > 5 && String.sub !mode 0 5 = "lazy+" then mode := String.sub !mode 5 (String.length !mode - 5)
+      else if String.length !mode > 3 && String.sub !mode 0 3 = "ctr" then begin
+        let i = String.index !mode '+' in
+        let d = String.sub !mode 3 (i - 3) in
+        ctr := L.fold_left (fun acc c -> BinNat.N.add (BinNat.N.mul acc (n_of_int 10)) (n_of_int (Char.code c - 48))) N0 (L.init (String.length d) (String.get d));
+        mode := String.sub !mode (i + 1) (String.length !mode - i - 1)
+      end else continue := false
+    done;
+    let mode = !mode in
+    let at s = { s with Framing.enc_ctr = !ctr; Framing.dec_ctr = !ctr } in
     let readers = L.map (fun m -> pieces mode (unhex m)) msgs in
-    let (wires, _) = Framing.send_all (session role sh) readers in
-    let (ds, _) = Framing.recv_all (session (peer role) sh) wires in
+    let (wires, _) = Framing.send_all (at (session role sh)) readers in
+    let (ds, _) = Framing.recv_all (at (session (peer role) sh)) wires in
     let show d = match d with Some pt -> hx pt | None -> "err" in
     String.concat " " (L.mapi (fun i (w, d) ->
         Printf.sprintf "w%d=%s r%d=%s d%d=%s" i (hx w) i (match d with Some pt -> hx pt | None -> "fail") i (show d))
@@ -44,6 +58,19 @@ let run (toks : string list) : string =
     let readers = L.map (fun m -> let d = unhex m in if d = [] then [] else [d]) msgs in
     let (wires, _) = Framing.send_all (session role sh) readers in
     String.concat " " (L.mapi (fun i w -> Printf.sprintf "w%d=%s" i (hx w)) wires)
+  | "sealc" :: shared :: role :: ctr :: msgs ->
+    let sh = unhex shared in
+    let c = L.fold_left (fun acc ch -> BinNat.N.add (BinNat.N.mul acc (n_of_int 10)) (n_of_int (Char.code ch - 48))) N0 (L.init (String.length ctr) (String.get ctr)) in
+    let readers = L.map (fun m -> let d = unhex m in if d = [] then [] else [d]) msgs in
+    let s0 = session role sh in
+    let (wires, _) = Framing.send_all { s0 with Framing.enc_ctr = c } readers in
+    String.concat " " (L.mapi (fun i w -> Printf.sprintf "w%d=%s" i (hx w)) wires)
+  | ["decc"; shared; role; ctr; stream] ->
+    let s = session role (unhex shared) in
+    let c = L.fold_left (fun acc ch -> BinNat.N.add (BinNat.N.mul acc (n_of_int 10)) (n_of_int (Char.code ch - 48))) N0 (L.init (String.length ctr) (String.get ctr)) in
+    let inp = unhex stream in
+    let (out, st) = Framing.decrypt_stream Framing.cc_open (nat_of_int (L.length inp + 1)) s.Framing.dec_key c inp in
+    "out=" ^ hx out ^ " st=" ^ (match st with Framing.RClean -> "clean" | Framing.RError _ -> "err")
   | ["dec"; shared; role; stream] ->
     let s = session role (unhex shared) in
     let inp = unhex stream in
